@@ -176,10 +176,16 @@ def set_is(a, pred):
 # ----------------------------------------------------------------------------------------------
 
 
-def transition(t, A, paths, method, clause, S=None, P=None, U=None, result=None, enable=None):
+def transition(t, A, paths, method, clause, S=None, P=None, U=None, result=None, enable=None, consumers=()):
     """State the exact set transition of a method.  Each of S/P/U is a predicate e -> z3 Bool giving the
     expected final membership (None = unchanged); `result` likewise for a returned set; `enable` the
-    expected final value of VOGP_AD's latch.  Also arms the finite candidate search + real-code replay."""
+    expected final value of VOGP_AD's latch.  Also arms the finite candidate search + real-code replay.
+
+    Besides the exact transition (what C02/C03 state), the weaker one-directional facts that OTHER properties consume
+    are stated as obligations of their own, so that those properties' checks can depend on exactly what their
+    lemmas use (and a change that keeps them while breaking the exact transition is not reported there):
+      mono/...      monotonicity facts used by the step composition of C06
+      <name>        every (name, fn) of `consumers`, fn(S', P', U', result_membership_or_None) -> formula."""
     from pyvc import finite, setmode as SM
 
     olds = {"S": A.S0, "P": A.P0, "U": A.U0}
@@ -199,6 +205,19 @@ def transition(t, A, paths, method, clause, S=None, P=None, U=None, result=None,
                       lambda p: set_is(p.value.mem, result) if p.kind == "return" and isinstance(p.value, SM.SSet) else False)
     if enable is not None:
         t.prove_paths("%s/latch" % clause, paths, lambda p: V.Bz(A.final(p)[3].fields["enable_epsilon_covering"]) == enable)
+    e = z3.Int("e!q")
+    has_U = "U" in A.obj.fields
+    t.prove_paths("mono/S_only_shrinks", paths, lambda p: z3.ForAll([e], z3.Implies(z3.Select(A.final(p)[0], e), z3.Select(A.S0, e))))
+    t.prove_paths("mono/P_only_grows", paths, lambda p: z3.ForAll([e], z3.Implies(z3.Select(A.P0, e), z3.Select(A.final(p)[1], e))))
+    t.prove_paths("mono/S_and_P_stay_disjoint", paths, lambda p: z3.ForAll([e], z3.Not(z3.And(z3.Select(A.final(p)[0], e), z3.Select(A.final(p)[1], e)))))
+    t.prove_paths("mono/a_design_enters_P_only_from_S", paths, lambda p: z3.ForAll([e], z3.Implies(z3.Select(A.final(p)[1], e), z3.Or(z3.Select(A.P0, e), z3.Select(A.S0, e)))))
+    if has_U:
+        t.prove_paths("mono/U_stays_inside_P", paths, lambda p: z3.ForAll([e], z3.Implies(z3.Select(A.final(p)[2], e), z3.Select(A.final(p)[1], e))))
+
+    def _res(p):
+        return p.value.mem if p.kind == "return" and isinstance(p.value, SM.SSet) else None
+    for cname, fn in consumers:
+        t.prove_paths(cname, paths, lambda p, fn=fn: fn(A.final(p)[0], A.final(p)[1], A.final(p)[2], _res(p)))
     t.finite = None
 
 
@@ -272,6 +291,15 @@ _q = z3.Int("q!w")
 _s = z3.Int("s!w")
 
 
+def _nocapture(fn):
+    """The specification predicates bind _q / _s internally: applying them to those very variables would capture."""
+    def g(x):
+        if z3.is_expr(x) and (x.eq(_q) or x.eq(_s)):
+            raise ValueError("specification predicate applied to its own bound variable %s (variable capture)" % x)
+        return fn(x)
+    return g
+
+
 class Specs:
     def __init__(self, A):
         self.A = A
@@ -285,17 +313,17 @@ class Specs:
     def cert_paveba(self, S, U, REG):
         A = self.A
         act = lambda e: z3.Or(z3.Select(S, e), z3.Select(U, e))
-        return lambda p: z3.Exists([_q], z3.And(act(_q), _q != p, DOM(A.order, z3.Select(REG, p), z3.Select(REG, _q), slack_num(0))))
+        return _nocapture(lambda p: z3.Exists([_q], z3.And(act(_q), _q != p, DOM(A.order, z3.Select(REG, p), z3.Select(REG, _q), slack_num(0)))))
 
     def pess(self, S, P, REG):
         A = self.A
         W = lambda e: z3.Or(z3.Select(S, e), z3.Select(P, e))
-        return lambda p: z3.And(W(p), z3.Not(z3.Exists([_q], z3.And(W(_q), _q != p, CHK(A.order, z3.Select(REG, _q), z3.Select(REG, p))))))
+        return _nocapture(lambda p: z3.And(W(p), z3.Not(z3.Exists([_q], z3.And(W(_q), _q != p, CHK(A.order, z3.Select(REG, _q), z3.Select(REG, p)))))))
 
     def cert_vogp(self, PS, REG, sl):
         A = self.A
-        return lambda p: z3.And(z3.Not(z3.Select(PS, p)),
-                                z3.Exists([_q], z3.And(z3.Select(PS, _q), DOM(A.order, z3.Select(REG, p), z3.Select(REG, _q), sl))))
+        return _nocapture(lambda p: z3.And(z3.Not(z3.Select(PS, p)),
+                                           z3.Exists([_q], z3.And(z3.Select(PS, _q), DOM(A.order, z3.Select(REG, p), z3.Select(REG, _q), sl)))))
 
     # --- C03
     def new(self, S, WIT, REG, sl):
@@ -303,11 +331,11 @@ class Specs:
         A = self.A
         wit = lambda e: z3.Or(*[z3.Select(w, e) for w in WIT])
         coverable = lambda p: z3.Exists([_q], z3.And(wit(_q), _q != p, COV(A.order, z3.Select(REG, p), z3.Select(REG, _q), sl)))
-        return lambda e: z3.And(z3.Select(S, e), z3.Not(coverable(e)))
+        return _nocapture(lambda e: z3.And(z3.Select(S, e), z3.Not(coverable(e))))
 
     def useful(self, S, P, REG, sl):
         A = self.A
-        return lambda p: z3.And(z3.Select(P, p), z3.Exists([_s], z3.And(z3.Select(S, _s), COV(A.order, z3.Select(REG, _s), z3.Select(REG, p), sl))))
+        return _nocapture(lambda p: z3.And(z3.Select(P, p), z3.Exists([_s], z3.And(z3.Select(S, _s), COV(A.order, z3.Select(REG, _s), z3.Select(REG, p), sl)))))
 
     def gate_open(self, S, enable):
         A = self.A
